@@ -41,7 +41,8 @@ def efficiency_bin(G, local=False):
         while np.any(L):
             D += n * L
             n += 1
-            nPATH = np.dot(nPATH, g)
+            # keep only which walks exist: the raw counts overflow on large graphs
+            nPATH = (np.dot(nPATH, g) != 0).astype(g.dtype)
             L = (nPATH != 0) * (D == 0)
         D[np.logical_not(D)] = np.inf
         D = 1 / D
